@@ -77,6 +77,27 @@ def overwrite (v : Vec α) (pos : Nat) (seg : List α) : Option (Vec α) :=
     some { v with items := v.items.take pos ++ seg ++ v.items.drop (pos + seg.length) }
   else none
 
+/-! ### element-wise copies inside the buffer
+`std::copy` / `std::copy_backward` over a non-trivially-copyable element type are loops of single
+assignments, each reading the *current* content of the buffer.  The direction matters when source and
+destination overlap. -/
+
+/-- one assignment `m_data[dst] = m_data[src]` between constructed cells -/
+def assignCell (v : Vec α) (src dst : Nat) : Option (Vec α) :=
+  match v.items[src]? with
+  | none => none
+  | some x => overwrite v dst [x]
+
+/-- `std::copy(m_data + s, m_data + s + n, m_data + d)`: ascending, `k = 0 … n-1` -/
+def copyFwd (v : Vec α) (s d : Nat) : Nat → Option (Vec α)
+  | 0 => some v
+  | n+1 => (assignCell v s d).bind fun v' => copyFwd v' (s + 1) (d + 1) n
+
+/-- `std::copy_backward(m_data + s, m_data + s + n, m_data + d + n)`: descending, `k = n-1 … 0` -/
+def copyBwd (v : Vec α) (s d : Nat) : Nat → Option (Vec α)
+  | 0 => some v
+  | n+1 => (assignCell v (s + n) (d + n)).bind fun v' => copyBwd v' s d n
+
 /-- push a list of values with `doPushBack`, failing if the buffer moves while iterators of the
 caller are live (`stable = true`). -/
 def pushAll (stable : Bool) : List α → Vec α → Option (Vec α)
@@ -123,7 +144,7 @@ def insertRange (v : Vec α) (pos : Nat) (ins : List α) : Option (Vec α) :=
         let n := ins.length
         (pushAll true (v.items.drop (v.items.length - n)) v).bind fun v1 =>
         -- copy_backward(thePosition, theOriginalEnd - n, theOriginalEnd)
-        (overwrite v1 (pos + n) ((v.items.drop pos).take (v.items.length - n - pos))).bind fun v2 =>
+        (copyBwd v1 pos (pos + n) (v.items.length - n - pos)).bind fun v2 =>
         overwrite v2 pos ins
 
 /-- `insert(thePosition, theCount, theData)` with `theData` not aliasing the vector. -/
@@ -145,7 +166,7 @@ def insertN (v : Vec α) (pos n : Nat) (x : α) : Option (Vec α) :=
         overwrite v2 pos (List.replicate rs x)
       else
         (pushAll true (v.items.drop (v.items.length - n)) v).bind fun v1 =>
-        (overwrite v1 (pos + n) ((v.items.drop pos).take (v.items.length - n - pos))).bind fun v2 =>
+        (copyBwd v1 pos (pos + n) (v.items.length - n - pos)).bind fun v2 =>
         overwrite v2 pos (List.replicate n x)
 
 /-- `insert(thePosition, theData)` -/
@@ -155,7 +176,7 @@ def insertOne (v : Vec α) (pos : Nat) (x : α) : Option (Vec α) := insertN v p
 def erase (v : Vec α) (first last : Nat) : Option (Vec α) :=
   if first > last ∨ last > v.items.length then none
   else if first = last then some v
-  else (overwrite v first (v.items.drop last)).bind (popN (last - first))
+  else (copyFwd v last first (v.items.length - last)).bind (popN (last - first))
 
 /-- `resize(theSize, theValue)` -/
 def resize (v : Vec α) (n : Nat) (x : α) : Option (Vec α) :=
@@ -220,10 +241,26 @@ def insertNAliasAsWritten (v : Vec α) (pos n i : Nat) : Option (Vec α) :=
         if rs ≤ n then insertN v pos n x
         else
           (pushAll true (v.items.drop (v.items.length - n)) v).bind fun v1 =>
-          (overwrite v1 (pos + n) ((v.items.drop pos).take (v.items.length - n - pos))).bind fun v2 =>
+          (copyBwd v1 pos (pos + n) (v.items.length - n - pos)).bind fun v2 =>
           match v2.items[i]? with
           | none => none
           | some y => overwrite v2 pos (List.replicate n y)
 
 end Vec
 end XalanModel.Containers
+
+namespace XalanModel.Containers.Vec
+variable {α : Type}
+
+/-- `insert(thePosition, theFirst, theLast)` with the tail shifted by a **forward** `std::copy` instead of
+`std::copy_backward` (the seeded break; only the in-place branch whose inserted range stays inside the
+old contents differs). -/
+def insertRangeForwardCopy (v : Vec α) (pos : Nat) (ins : List α) : Option (Vec α) :=
+  let n := ins.length
+  if pos ≥ v.items.length ∨ n = 0 ∨ v.items.length + n > v.alloc ∨ v.items.length - pos ≤ n then insertRange v pos ins
+  else
+    (pushAll true (v.items.drop (v.items.length - n)) v).bind fun v1 =>
+    (copyFwd v1 pos (pos + n) (v.items.length - n - pos)).bind fun v2 =>
+    overwrite v2 pos ins
+
+end XalanModel.Containers.Vec
